@@ -15,6 +15,34 @@ CHECKS = {
             "DESIGN.md §2 C03"),
 }
 
+CHECKS.update({
+    "C01": ("exploration",
+            "runtime monitors (wrappers on Grammar.fuzz and the initial-population / crossover / mutation / repair operators) + reference derivation checker and recogniser as oracle",
+            "Every tree the producing operators hand out during plain fuzzing and evolutionary search (not only solutions) is judged by an independent derivation checker built from /verif's own grammar AST (or from the node objects for the ~80 harvested specs) and its word by an independent recogniser. Holds on the K executions reported in the evidence (operators and grammar features seen are listed there).",
+            "Trusts vf/ref/grammar_model.py; computed repetition counts are read as {0,}; Gmutator settings never set; exrex/regex are part of the observed system.",
+            "DESIGN.md §2 C01"),
+    "C04": ("exploration",
+            "runtime oracle on every tree yielded by parse / parse_forest / Fandango.parse: reference derivation checker, reference serialisation == input, reference recogniser; inputs include near misses",
+            "Soundness is judged per yielded tree (no reference forest needed, ambiguity cannot alarm). Inputs: reference-language words, fuzzed words, near misses, noise, other start symbols; API level with word-level constraints whose truth the harness computes from the input.",
+            "Trusts the reference model; abstains on the Latin-1/UTF-8 reading of text terminals inside binary grammars (C05/C09 decide that).",
+            "DESIGN.md §2 C04"),
+    "C05": ("exploration",
+            "differential runtime check: reference enumerator of L(G) -> real parser (completeness); generate -> serialise as the CLI does -> Fandango.parse (round trip); counterfactual mechanism classification of failures",
+            "Every word of the reference language up to the bound (<= 400 per start symbol per grammar) is parsed by the real parser; every fuzzed tree / emitted solution of generated and harvested specs is written out the way the CLI does and parsed back. Failures are attributed by building variant languages in which the suspected construct is unusable.",
+            "Grammar class of the statement enforced by construction (regex terminals delimited); harvested grammars with regexes are reported separately; the listed known findings are broad mechanism classes (see known_findings.json).",
+            "DESIGN.md §2 C05"),
+    "C06": ("exploration",
+            "logical step clock on Column.add (admitted Earley states, reset at every output) with a budget and divergence witnesses (growing-children core / duplicate state); exhaustive short inputs over the grammar alphabet",
+            "Liveness restated as bounded progress: a request is violating when > 8000 states are admitted without an output AND a pumping/duplicate witness exists; budget without witness is inconclusive. Grammar generator emphasises nullable symbols under repetitions, recursion, unit cycles.",
+            "A finite run cannot decide unbounded termination; finitely ambiguous grammars of the generated size need far fewer admissions (reported).",
+            "DESIGN.md §2 C06"),
+    "C13": ("exploration",
+            "history checker over the real IterativeParser: every composition of each input (all 2^(n-1) for n <= 9/11) is fed fragment by fragment; complete-parse sets compared with the at-once run; can_continue() judged against reference-language extensions",
+            "Exhaustive over compositions for short inputs; inputs inside and outside the language; text/bytes/bit-level grammars with cuts inside literals, regex matches, multi-byte characters and bit runs; plus packetparser-style single-symbol feeding with suspended generators.",
+            "can_continue()==False is refuted only by an extension found by the bounded reference enumerator (sound, incomplete).",
+            "DESIGN.md §2 C13"),
+})
+
 NOT_YET = {}
 
 
